@@ -56,10 +56,12 @@ def make_carver(spec, **override):
         dropna=bool(p['dropna']),
         output_dtype=p.get('output_dtype', 'float'),
         copy=bool(p.get('copy', True)),
-        verbose=False,
+        verbose=bool(p.get('verbose', False)),
     )
     if p.get('min_freq_mod') is not None:
         kw['min_freq_mod'] = p['min_freq_mod'][0] / p['min_freq_mod'][1]
+    if kw['verbose']:
+        kw['pretty_print'] = False        # plain-text tables (the html ones need jinja2, absent from the sandbox)
     if p.get('n_jobs'):
         kw['n_jobs'] = p['n_jobs']
     if spec['carver'] == 'binary':
@@ -130,7 +132,9 @@ def run_fit(spec):
     X, y, Xd, yd = _frames(spec)
     carver = make_carver(spec)
     exc = None
-    with Recorder() as rec:
+    import contextlib
+    import io
+    with Recorder() as rec, contextlib.redirect_stdout(io.StringIO()), contextlib.redirect_stderr(io.StringIO()):      # (verbose fits print tables and progress bars)
         try:
             if Xd is not None:
                 carver.fit(X, y, X_dev=Xd, y_dev=yd)
